@@ -37,7 +37,7 @@ func runC14(c *Ctx) error {
 	c.Sum.Rule = "(a) caller payloads: SHA-256 of every slice passed to every write API (both roles - clients mask -, compression on/off, sizes 0..300000, async after the completion callback, broadcast after Close) before vs after; (b) delivered messages, ping and pong payloads held by the application across later traffic while a scribbler repeatedly takes every size class out of the shared pool, poisons it and puts it back (GOMAXPROCS=1 makes sync.Pool reuse deterministic): bytes unchanged until Message.Close; (c) broadcast frames shared by several connections under the scribbler; (d) pooled compression windows: a connection opened after another one was torn down starts with an empty window and the torn-down connection's window is not visible through it; non-trivial = all; distinct by scenario"
 	old := runtime.GOMAXPROCS(1)
 	defer runtime.GOMAXPROCS(old)
-	sizes := []int{0, 1, 125, 126, 4000, 65536, 131073, 300000}
+	sizes := []int{0, 1, 125, 126, 4000, 65536, 200, 131073, 10, 300000, 50, 5000, 3} // small payloads after large ones: the window slides over what the large one left
 	apis := []string{"message", "writev", "async", "writevasync", "file", "broadcast", "ping", "string"}
 	// ---- (a)
 	for _, server := range []bool{true, false} {
@@ -47,6 +47,13 @@ func runC14(c *Ctx) error {
 			if err != nil {
 				return err
 			}
+			type given struct {
+				slices [][]byte
+				sums   [][32]byte
+				tag    string
+			}
+			var recent []given    // payloads of the last calls: must stay intact across LATER calls too
+			var originals [][]byte // private copies of every data payload that was accepted, in call order
 			for _, n := range sizes {
 				for _, api := range apis {
 					if (api == "ping") && n > 125 {
@@ -82,10 +89,64 @@ func runC14(c *Ctx) error {
 					if api == "file" && !bytes.Equal(joinSlices(op.Reader.chunks0()), p) {
 						c.oracleFail("data behind the reader given to WriteFile was modified ["+tag+"]", "payload-mutated", map[string]any{"tag": tag})
 					}
+					// earlier payloads: a later call must not write into them either
+					for _, g := range recent {
+						for i, s := range g.slices {
+							if sha256.Sum256(s) != g.sums[i] {
+								c.oracleFail("a payload slice passed to an EARLIER write call was modified by a later one ["+g.tag+"; later call: "+tag+"]", "payload-mutated-later",
+									map[string]any{"tag": g.tag, "later": tag, "slice": i})
+							}
+						}
+					}
+					if (res == 0 || res == 100) && api != "ping" {
+						originals = append(originals, append([]byte(nil), p...))
+					}
+					recent = append(recent, given{slices, sums, tag})
+					if len(recent) > 4 {
+						// the caller reuses its oldest buffer: gws must not be reading it any more
+						for _, s := range recent[0].slices {
+							for i := range s {
+								s[i] = 0x55
+							}
+						}
+						recent = recent[1:]
+					}
 					c.count(tag, true, "kind=payload", "api="+api)
 				}
 			}
-			_ = tap
+			// what the peer decodes is what the application passed at the time of each call, although the caller has
+			// reused most of its buffers since
+			{
+				rx := &rfcReceiver{server: server}
+				if pd := conn.VerifPD(); pd.Enabled {
+					if server {
+						rx.takeover, rx.bits = pd.ServerContextTakeover, pd.ServerMaxWindowBits
+					} else {
+						rx.takeover, rx.bits = pd.ClientContextTakeover, pd.ClientMaxWindowBits
+					}
+				}
+				tag := fmt.Sprintf("payload server=%v pmd=%v whole connection", server, pmd)
+				msgs, problem := rx.receive(tap.written())
+				var data [][]byte
+				for _, m := range msgs {
+					if m.Opcode < 8 {
+						data = append(data, m.Payload)
+					}
+				}
+				switch {
+				case problem != "":
+					c.oracleFail("the peer cannot decode the connection's output after the caller reused its buffers: "+problem+" ["+tag+"]", "payload-read-later", map[string]any{"tag": tag})
+				case len(data) != len(originals):
+					c.oracleFail(fmt.Sprintf("%d data messages on the wire, %d accepted calls [%s]", len(data), len(originals), tag), "payload-read-later", map[string]any{"tag": tag})
+				default:
+					for i := range data {
+						if !bytes.Equal(data[i], originals[i]) {
+							c.oracleFail(fmt.Sprintf("message %d decodes to different bytes than the application passed (the caller reused its buffers after the calls returned) [%s]", i, tag), "payload-read-later", map[string]any{"tag": tag, "index": i})
+							break
+						}
+					}
+				}
+			}
 			_ = conn.WriteClose(1000, nil)
 		}
 	}
